@@ -328,8 +328,8 @@ var fieldRoles = map[string]string{
 	"rtph264.fragments": "chain", "rtph264.frameBuffer": "list",
 	"rtph265.fragments": "chain", "rtph265.frameBuffer": "list",
 	"rtpav1.fragments": "chain", "rtpav1.frameBuffer": "list",
-	"rtpvp8.frameBuffer": "chain", // fragments of one frame, joined at the marker
-	"rtpvp9.fragments": "chain",
+	"rtpvp8.frameBuffer":      "chain", // fragments of one frame, joined at the marker
+	"rtpvp9.fragments":        "chain",
 	"rtpfragmented.fragments": "chain",
 	"rtpmpeg4audio.fragments": "chain",
 	"rtpmpeg1audio.fragments": "chain",
